@@ -279,6 +279,10 @@ func c10Run(w *W, idx int) {
 	w.Inc("programs")
 	w.Inc("programs_" + stratum)
 	w.Sample(stratum, src)
+	if registerOperatorFailures > 0 {
+		w.Fail("register-operator-rejects-fresh-name", "RegisterOperator returned an error for a fresh, non-built-in operator name (%d times)", registerOperatorFailures)
+		registerOperatorFailures = 0
+	}
 	declared := map[string]bool{}
 	for _, s := range stdStateless {
 		declared[s] = true
